@@ -311,7 +311,10 @@ func runControl(repo, home, prop, patch string, fn func(*rules.Ctx)) int {
 		}()
 		fn(ctx)
 	}()
-	keys := alarmKeys(home, prop, run, false)
+	keys := alarmKeys(home, prop, run, os.Getenv("KVERIF_DEBUG") != "")
+	if os.Getenv("KVERIF_DEBUG") != "" {
+		fmt.Printf("normalisation: new=%v inlined=%v skipped=%v notes=%v\n", p.NewFuncs, p.Inlined, p.Skipped, p.Notes)
+	}
 	if len(keys) == 0 {
 		fmt.Printf("CONTROL missed patch=%s\n", patch)
 		return 3
